@@ -1,6 +1,7 @@
 """Validator descriptions -> real koda_validate objects (with instrumented callbacks)."""
 from __future__ import annotations
 
+import json
 import re
 from typing import Any, Callable, Dict, List, Optional
 
@@ -158,6 +159,15 @@ def oc_fn(ctx: Ctx, d: dict) -> Callable[[Any], Optional[CustomErr]]:
 
 
 def into_fn(ctx: Ctx, d: dict) -> Callable[..., Any]:
+    key = ("into", json.dumps(d, sort_keys=True))
+    if key in ctx.memo:
+        return ctx.memo[key]
+    r = _into_fn(ctx, d)
+    ctx.memo[key] = r
+    return r
+
+
+def _into_fn(ctx: Ctx, d: dict) -> Callable[..., Any]:
     f = d["f"]
     iid = d["id"]
     if f == "dictOf":
@@ -297,7 +307,11 @@ def mk_pred(ctx: Ctx, d: dict) -> Any:
     elif k == "MaxKeys":
         p = MaxKeys(d["n"])
     elif k == "user":
+        key = ("pred", d["pid"], json.dumps(d["fn"], sort_keys=True))
+        if key in ctx.memo:
+            return ctx.memo[key]
         p = UserPred(ctx, d["pid"], bool_fn(ctx, d["fn"]))
+        ctx.memo[key] = p
     else:
         raise ValueError(k)
     ctx.pid[id(p)] = d["pid"]
@@ -307,7 +321,11 @@ def mk_pred(ctx: Ctx, d: dict) -> Any:
 
 def mk_apred(ctx: Ctx, d: dict) -> Any:
     assert d["k"] == "user"
+    key = ("apred", d["pid"], json.dumps(d["fn"], sort_keys=True))
+    if key in ctx.memo:
+        return ctx.memo[key]
     p = UserPredAsync(ctx, d["pid"], bool_fn(ctx, d["fn"]), d.get("yields", 0))
+    ctx.memo[key] = p
     ctx.pid[id(p)] = d["pid"]
     ctx.keep.append(p)
     return p
@@ -322,7 +340,11 @@ def mk_proc(ctx: Ctx, d: dict) -> Any:
     elif k == "lower":
         p = LowerCase()
     elif k == "user":
+        key = ("proc", d["pid"], json.dumps(d["fn"], sort_keys=True))
+        if key in ctx.memo:
+            return ctx.memo[key]
         p = UserProc(ctx, d["pid"], val_fn(ctx, d["fn"]))
+        ctx.memo[key] = p
     else:
         raise ValueError(k)
     ctx.pid[id(p)] = d["pid"]
@@ -340,19 +362,30 @@ def mk_coerce(ctx: Ctx, d: Any, cls: Any = None, kind: str = "") -> Any:
     if d == "default":
         return _UNSET
     if d == "classOnly":
-        return dataclass_no_coerce(cls) if kind == "dataclass" else namedtuple_no_coerce(cls)
+        ckey = ("classOnly", kind, id(cls))     # one coercer object per class: coercers compare by function identity
+        if ckey not in ctx.memo:
+            ctx.memo[ckey] = dataclass_no_coerce(cls) if kind == "dataclass" else namedtuple_no_coerce(cls)
+        return ctx.memo[ckey]
+    key = ("coerce", d["cid"], json.dumps(d, sort_keys=True))
+    if key in ctx.memo:
+        return ctx.memo[key]
     fn = opt_fn(ctx, d["fn"])
     cid = d["cid"]
 
     def f(x: Any) -> Maybe[Any]:
         ctx.log.append(["coerce", cid])
         return fn(x)
-    return Coercer(f, set(type_of_ty(ctx, t) for t in d["compat"]))
+    co = Coercer(f, set(type_of_ty(ctx, t) for t in d["compat"]))
+    ctx.memo[key] = co
+    return co
 
 
 def mk_oc(ctx: Ctx, d: Any, is_async: bool) -> Any:
     if d is None:
         return None
+    key = ("oc", is_async, json.dumps(d, sort_keys=True))
+    if key in ctx.memo:
+        return ctx.memo[key]
     fn = oc_fn(ctx, d["fn"])
     oid = d["id"]
     if is_async:
@@ -363,11 +396,13 @@ def mk_oc(ctx: Ctx, d: Any, is_async: bool) -> Any:
             for _ in range(yields):
                 await Yield()
             return fn(x)
+        ctx.memo[key] = af
         return af
 
     def f(x: Any) -> Any:
         ctx.log.append(["oc", oid])
         return fn(x)
+    ctx.memo[key] = f
     return f
 
 
@@ -460,7 +495,10 @@ def mk_validator(ctx: Ctx, d: dict, env: List[Any]) -> Any:
         v = MaybeValidator(mk_validator(ctx, d["inner"], env))
     elif k == "lazy":
         ref = d["ref"]
-        v = Lazy(lambda: env[ref], recurrent=d.get("recurrent", True))
+        tkey = ("thunk", id(env), ref)     # one thunk object per (environment, reference): Lazy compares thunks by identity
+        if tkey not in ctx.memo:
+            ctx.memo[tkey] = lambda: env[ref]
+        v = Lazy(ctx.memo[tkey], recurrent=d.get("recurrent", True))
     elif k == "knr":
         v = KeyNotRequired(mk_validator(ctx, d["inner"], env))
     elif k == "user":
@@ -526,11 +564,15 @@ def mk_record(ctx: Ctx, d: dict, env: List[Any]) -> Any:
 
 
 def build(ctx: Ctx, vdesc: dict, envdesc: List[dict]) -> Any:
-    env: List[Any] = []
-    for e in envdesc:
-        env.append(None)
-    for i, e in enumerate(envdesc):
-        env[i] = mk_validator(ctx, e, env)
+    ekey = ("env", json.dumps(envdesc, sort_keys=True))
+    if ekey in ctx.memo:
+        env = ctx.memo[ekey]      # the same environment of named validators for every build in this context
+    else:
+        env = [None for _ in envdesc]
+        ctx.memo[ekey] = env
+        ctx.keep.append(env)
+        for i, e in enumerate(envdesc):
+            env[i] = mk_validator(ctx, e, env)
     return mk_validator(ctx, vdesc, env)
 
 
